@@ -1014,6 +1014,8 @@ func replay(kind, tags, args string) {
 			ops = append(ops, rd)
 		}
 		runHistory(kind, tags, ops, vs[1].n, int(vs[2].n))
+	case "sync.round":
+		replaySync(tags, vs)
 	}
 }
 
@@ -1028,13 +1030,17 @@ func main() {
 		return
 	}
 	r := lib.NewRng(a.Seed)
-	nc, nh, nr := 3500, 3500, 5000
+	nc, nh, nr, ns := 3500, 3500, 5000, 2500
 	if a.Tier == "thorough" {
-		nc, nh, nr = 60000, 50000, 60000
+		nc, nh, nr, ns = 60000, 50000, 60000, 40000
 	}
 	corpus()
+	syncCorpus()
 	// the kinds interleaved, so that a run that stops early has seen all of them
 	for i := 0; i < nc || i < nh || i < nr; i++ {
+		if i < ns {
+			genSync(r)
+		}
 		if i < nc {
 			genCollect(r)
 			genCollect(r.Fork())
